@@ -103,20 +103,22 @@ func (b *ubc) Finished()                     {}
 func (b *ubc) UniqueBroadcast()              {}
 
 type ccfg struct {
-	label     string
-	key       []byte // nil = no encryption
-	keys      [][]byte
-	proto     uint8 // 1 => encryption version 0
-	compress  bool
-	udp       int
-	verifyIn  bool
-	verifyOut bool
-	skipIn    bool
-	name      string
-	cidrs     []string
-	emptyRing bool // a keyring without keys at creation (keys installed later)
-	noDel     bool // no user Delegate configured
+	label      string
+	key        []byte // nil = no encryption
+	keys       [][]byte
+	proto      uint8 // 1 => encryption version 0
+	compress   bool
+	udp        int
+	verifyIn   bool
+	verifyOut  bool
+	skipIn     bool
+	name       string
+	cidrs      []string
+	emptyRing  bool          // a keyring without keys at creation (keys installed later)
+	noDel      bool          // no user Delegate configured
 	tcpTimeout time.Duration // 0 = default
+	altRep     bool          // allow-list in the other in-memory form (altNets)
+	secretKey  bool          // the key is given as Config.SecretKey (Create builds the keyring)
 }
 
 type cnode struct {
@@ -177,13 +179,18 @@ func newCnode(c ccfg) (*cnode, error) {
 			return nil, err
 		}
 		conf.CIDRsAllowed = nets
+		if c.altRep {
+			conf.CIDRsAllowed = altNets(nets)
+		}
 	}
 	if c.emptyRing {
 		kr, _ := ml.NewKeyring(nil, nil)
 		conf.Keyring = kr
 		keyring = kr
 	}
-	if c.key != nil {
+	if c.key != nil && c.secretKey {
+		conf.SecretKey = c.key
+	} else if c.key != nil {
 		kr, err := ml.NewKeyring(c.keys, c.key)
 		if err != nil {
 			return nil, err
@@ -197,6 +204,9 @@ func newCnode(c ccfg) (*cnode, error) {
 	}
 	ml.VerifResetBroadcasts(m)
 	ev.take()
+	if c.secretKey {
+		keyring = conf.Keyring
+	}
 	return &cnode{m: m, tr: tr, del: del, ev: ev, cfg: c, kr: keyring}, nil
 }
 
